@@ -2,7 +2,8 @@
 
 Targets rl4co.data.dataset (TensorDictDataset, FastTdDataset, TensorDictDatasetFastGeneration,
 ExtraKeyDataset, add_key, collate_fn), RL4COLitModule._dataloader/_dataloader_single, env.dataset and
-RolloutBaseline.setup/rollout/wrap_dataset (directly and through REINFORCE + WarmupBaseline).
+RolloutBaseline.setup/rollout/wrap_dataset (directly and through REINFORCE + WarmupBaseline) under drawn
+train()/eval() mode histories, and RL4COLitModule.setup + train_/val_/test_dataloader for every phase.
 
 Oracles
   * loader round trip: every batch row is compared bit-for-bit (bytes, dtype, shape) with the row of a
@@ -11,8 +12,12 @@ Oracles
   * env datasets: the original instances are env.generator(N) under the same torch seed; rows are
     identified by a content fingerprint over all keys.
   * rollout baseline: extra[i] vs. the greedy reward of an independent snapshot of the baseline policy on
-    instance i decoded SOLO (batch of one); argmax-stability rule: an instance whose solo decode has a
-    top-2 log-prob gap <= 1e-4 at some step is don't-care when the values differ.
+    instance i decoded SOLO (batch of one) in eval mode; argmax-stability rule: an instance whose solo decode
+    has a top-2 log-prob gap <= 1e-4 at some step is don't-care when the values differ. The snapshot is taken
+    before setup and never sees the mode switches applied to the module / baseline / actor.
+  * module phases: the originals of a phase are the npz files configured on the env for that phase or the
+    generator output of the phase's configured size; val and test loaders must return them in the original order,
+    the train loader a permutation (identity without shuffle_train_dataloader), batch sizes as configured.
 """
 import copy
 import logging
@@ -34,8 +39,25 @@ RULE = (
     "rollout_wrap: tiny AttentionModelPolicy (embed 16/32, 1 layer, parameters x{1,1.25,1.5}; larger factors saturate "
     "the tanh clipping into exact ties) on tsp/cvrp (4-8 nodes), RolloutBaseline set up "
     "directly or through REINFORCE(baseline='rollout')+epoch_callback, evaluation batch size drawn (mostly not "
-    "dividing N), training policy perturbed after the snapshot. Non-trivial = final partial batch (N % bs != 0) "
-    "and, for the loader subs, shuffle on with an extra key; for rollout_wrap additionally >=1 decisive instance. "
+    "dividing N), training policy perturbed after the snapshot; the policy has mode-dependent layers (batch norm = "
+    "constructor default, fresh or 'trained' running statistics; optionally a dropout layer behind the initial "
+    "embedding, with batch or instance norm); the actor is handed over in train or eval mode; three drawn mode "
+    "histories (0-3 recursive .train()/.eval() calls on the Lightning module [direct mode: baseline and actor], the "
+    "baseline module or the actor; [] and ['model.train'] = Trainer.fit boosted) are replayed after setup, after "
+    "epoch_callback and between the first and a second wrap_dataset; the second wrap is of a new set made of a drawn "
+    "selection (permutation prefix or selection with repeats) of the first set's instances with its own evaluation "
+    "batch size (direct mode), value j checked against the solo value of instance sel[j]; after every wrap the "
+    "actor's and the baseline policy's state_dict (parameters and buffers) must be unchanged. "
+    "module_phases: TSPEnv with a recording generator and/or npz files per phase (train: generated|train_file; "
+    "val/test: generated|one file|list of 1-3 files = dict of named datasets, names given or default), 1-3 keys + "
+    "hidden id, N 1..16 per dataset (generated phases have pairwise distinct sizes), dataset_cls drawn, "
+    "REINFORCE(baseline='no') or bare RL4COLitModule with batch_size int, val_batch_size/test_batch_size in "
+    "{None (documented fall-back), int, list per dataset}, shuffle_train_dataloader on/off, dataloader_num_workers=0; "
+    "setup() then train_/val_/test_dataloader() in a drawn order with up to 2 repeated calls (a repeated train call "
+    "first renews the train set the way on_train_epoch_end does); loaded batches are modified in place after "
+    "verification. Non-trivial = final partial batch (N % bs != 0) "
+    "and, for the loader subs, shuffle on with an extra key; for rollout_wrap additionally >=1 decisive instance; for "
+    "module_phases shuffle_train_dataloader on and a val/test dataset with N >= 3 and a final partial batch. "
     "Distinct = distinct case hash."
 )
 ASSUMPTIONS = [
@@ -49,6 +71,21 @@ ASSUMPTIONS = [
     "RL4COLitModule._dataloader with a *list* of datasets and REINFORCE(baseline='rollout_only').setup() crash on "
     "the unchanged tree; recorded as observations (events) only, by decision of the lead",
     "dataloader_num_workers = 0 (library default)",
+    "rollout_wrap mode histories: nn.Module.train(mode)/eval() called on the REINFORCE module, the baseline module or "
+    "the actor are ordinary user / Trainer actions; they change no parameter, so the baseline policy's greedy reward "
+    "on instance i (eval-mode forward of the frozen copy) is the same before and after them. The dropout variant "
+    "wraps policy.encoder.init_embedding in nn.Sequential(init_embedding, nn.Dropout(0.3)) (AttentionModelPolicy "
+    "has no dropout option)",
+    "wrap_dataset is not given the actor: its state_dict must be bit-identical before and after; an eval-mode "
+    "evaluation leaves the baseline policy's state_dict (incl. batch-norm statistics) bit-identical to the snapshot",
+    "module_phases: val_batch_size None -> batch_size, test_batch_size None -> val_batch_size (class docstring); a "
+    "list of batch sizes is only used with as many datasets (otherwise the library asserts: outside the domain); "
+    "datasets reach the module through env.dataset(size, phase) only (generator or train_file/val_file/test_file); "
+    "a plain *list* of datasets handed to _dataloader raises on the unchanged tree (DESIGN observation O5) and is "
+    "kept out of the asserted domain (counted by the observations sub); dict names are asserted when configured, "
+    "only their count when defaulted; that shuffling actually permutes is not asserted (not part of C17)",
+    "module_phases: npz files are only the transport to env.dataset (persistence itself is C19); scratch "
+    "directories live under tempfile.gettempdir() and are removed at the end of every case",
 ]
 TIME_CAP = {"quick": 300, "thorough": 2400}
 
@@ -452,12 +489,223 @@ def execute_env(case, ctx):
     ctx.sample({k: case[k] for k in ("env", "N", "bs", "dcls", "shuffle", "extra", "loader", "phase")})
 
 
+# --------------------------------------------------------------------------- A3. the module's loader factories
+# RL4COLitModule.setup() + train_dataloader() / val_dataloader() / test_dataloader() for every phase. The data of a
+# phase come from env.dataset(size, phase): a generator call (sizes of generated phases are distinct, so the content
+# is bound to the phase by its configured *_data_size) or npz file(s) configured on the env (train_file / val_file /
+# test_file; a list of files gives a dict of named datasets = one loader per dataset).
+_PH = ("train", "val", "test")
+_NAMES = ["b", "a", "10", "1", "val"]
+
+
+@st.composite
+def cases_ph(draw, tier="quick"):
+    keys = [{"dt": "f32", "shape": draw(st.sampled_from([[2], [3, 2], []]))}]
+    keys += draw(st.lists(st.fixed_dictionaries({"dt": st.sampled_from(["f32", "f64", "i64", "i32", "bool"]),
+                                                 "shape": _SHAPES}), min_size=0, max_size=2))
+    first = draw(st.lists(st.integers(1, 16), min_size=3, max_size=3, unique=True))
+    phases = {}
+    for ph, n0 in zip(_PH, first):
+        form = draw(st.sampled_from(["gen", "gen", "file"] if ph == "train" else ["gen", "file", "files", "files"]))
+        k = draw(st.integers(1, 3)) if form == "files" else 1
+        Ns = [n0] + [draw(st.integers(1, 12)) for _ in range(k - 1)]
+        names = None
+        if form == "files" and draw(st.booleans()):
+            names = list(draw(st.permutations(_NAMES)))[:k]
+        phases[ph] = dict(form=form, N=Ns, names=names)
+
+    def bs_for(ph, allow_none, inherited):
+        p = phases[ph]
+        kinds = ["int", "int"]
+        if p["form"] == "files":
+            kinds += ["list", "list"]
+        # None falls back to the previous phase's setting: only defined if that fits this phase's datasets
+        if allow_none and (isinstance(inherited, int) or (p["form"] == "files" and len(inherited) == len(p["N"]))):
+            kinds += ["none", "none"]
+        kind = draw(st.sampled_from(kinds))
+        if kind == "none":
+            return None
+        if kind == "int":
+            return _bs(draw, max(p["N"]))
+        return [_bs(draw, n) for n in p["N"]]
+
+    bs = _bs(draw, phases["train"]["N"][0])
+    vbs = bs_for("val", True, bs)
+    tbs = bs_for("test", True, bs if vbs is None else vbs)
+    calls = list(draw(st.permutations(_PH))) + draw(st.lists(st.sampled_from(_PH), max_size=2))
+    return dict(keys=keys, id_pos=draw(st.integers(0, len(keys))), phases=phases, bs=bs, val_bs=vbs, test_bs=tbs,
+                shuffle_train=draw(st.sampled_from([True, True, False])),
+                dcls=draw(st.sampled_from(["default", "tdd", "fast", "fastgen"])),
+                module=draw(st.sampled_from(["reinforce", "base"])), calls=calls,
+                sizes_unused=draw(st.integers(1, 30)), seed=draw(st.integers(0, 2 ** 20)))
+
+
+def _cols(keys, id_pos, N, seed):
+    order = [f"k{j}" for j in range(len(keys))]
+    order.insert(id_pos, "id")
+    return {name: (torch.arange(N) if name == "id" else _col(keys[int(name[1:])]["dt"], N, keys[int(name[1:])]["shape"],
+                                                             seed * 8 + int(name[1:]))) for name in order}
+
+
+class _RecordingGenerator:
+    """What env.generator is to env.dataset: batch size in, TensorDict out. Every call draws new content (as a
+    real generator does) and keeps a copy = the original instances of that dataset."""
+
+    def __init__(self, keys, id_pos, seed):
+        self.keys, self.id_pos, self.seed, self.made = keys, id_pos, seed, {}
+
+    def __call__(self, batch_size):
+        from tensordict import TensorDict
+
+        n = int(batch_size[0]) if isinstance(batch_size, (list, tuple, torch.Size)) else int(batch_size)
+        prev = self.made.setdefault(n, [])
+        cols = _cols(self.keys, self.id_pos, n, self.seed * 64 + 32 + 7 * len(prev) + n)
+        prev.append({k: v.clone() for k, v in cols.items()})
+        return TensorDict(cols, batch_size=[n])
+
+
+def execute_ph(case, ctx):
+    import shutil
+    import tempfile
+
+    tmp = tempfile.mkdtemp(prefix="vf-c17-")  # the files stay until the end: a renewed train set is re-read from them
+    try:
+        _run_ph(case, ctx, tmp)
+    finally:
+        shutil.rmtree(tmp, ignore_errors=True)
+
+
+def _run_ph(case, ctx, tmp):
+    import os
+
+    import numpy as np
+    from rl4co.envs import TSPEnv
+    from rl4co.models import REINFORCE
+    from rl4co.models.rl.common.base import RL4COLitModule
+    from torch.utils.data import DataLoader
+
+    _quiet()
+    keys, id_pos, seed, phases = case["keys"], case["id_pos"], case["seed"], case["phases"]
+    origin = {}  # phase -> list of original column dicts (file phases); generated phases are read off the generator
+    kw = {}
+    for pi, ph in enumerate(_PH):
+        p = phases[ph]
+        if p["form"] == "gen":
+            continue
+        origin[ph], files = [], []
+        for j, n in enumerate(p["N"]):
+            cols = _cols(keys, id_pos, n, seed * 64 + pi * 8 + j)
+            origin[ph].append({k: v.clone() for k, v in cols.items()})
+            files.append(f"{ph}{j}.npz")
+            np.savez(os.path.join(tmp, files[-1]), **{k: v.numpy() for k, v in cols.items()})
+        kw[f"{ph}_file"] = files if p["form"] == "files" else files[0]
+        if p["names"] is not None:
+            kw[f"{ph}_dataloader_names"] = list(p["names"])
+    if case["dcls"] != "default":
+        kw["dataset_cls"] = _dataset_cls(case["dcls"])
+    env = ctx.guard(TSPEnv, generator_params={"num_loc": 5}, data_dir=tmp, what="TSPEnv", **kw)
+    gen = _RecordingGenerator(keys, id_pos, seed)
+    env.generator = gen
+    size = {ph: (phases[ph]["N"][0] if phases[ph]["form"] == "gen" else case["sizes_unused"]) for ph in _PH}
+    cls = REINFORCE if case["module"] == "reinforce" else RL4COLitModule
+    mkw = {"baseline": "no"} if case["module"] == "reinforce" else {}
+    # the loader factories never touch the policy: a parameter-free stand-in keeps the per-case construction cheap
+    # (save_hyperparameters deep-copies env and policy)
+    model = ctx.guard(cls, env, torch.nn.Identity(), batch_size=case["bs"], val_batch_size=case["val_bs"],
+                      test_batch_size=case["test_bs"], train_data_size=size["train"], val_data_size=size["val"],
+                      test_data_size=size["test"], shuffle_train_dataloader=case["shuffle_train"],
+                      dataloader_num_workers=0, what="LitModule", **mkw)
+    ctx.guard(model.setup, what="LitModule.setup")
+
+    # documented fall-backs: val_batch_size None -> batch_size; test_batch_size None -> val_batch_size
+    conf = {"train": case["bs"]}
+    conf["val"] = conf["train"] if case["val_bs"] is None else case["val_bs"]
+    conf["test"] = conf["val"] if case["test_bs"] is None else case["test_bs"]
+
+    def originals(ph):
+        p = phases[ph]
+        if p["form"] == "gen":
+            return [gen.made[p["N"][0]][-1]]
+        return origin[ph]
+
+    stake = False
+    seen = set()
+    for ci, ph in enumerate(case["calls"]):
+        p = phases[ph]
+        if ph == "train" and ph in seen:
+            # a new epoch: what RL4COLitModule.on_train_epoch_end does (it needs a trainer for the epoch counter)
+            model.train_dataset = ctx.guard(model.wrap_dataset,
+                                            ctx.guard(env.dataset, size["train"], "train", what="env.dataset"),
+                                            what="wrap_dataset")
+            ctx.event("train_set_renewed")
+        seen.add(ph)
+        torch.manual_seed(seed + ci)
+        dls = ctx.guard(getattr(model, f"{ph}_dataloader"), what=f"{ph}_dataloader")
+        tag = f"{ph}|{p['form']}|shuffle_train={int(case['shuffle_train'])}"
+        orig = originals(ph)
+        if p["form"] == "files":
+            if not ctx.check(isinstance(dls, (list, tuple)) and len(dls) == len(orig), f"dict_loaders|{tag}",
+                             f"{len(orig)} named datasets: expected one loader per dataset, got "
+                             f"{type(dls).__name__} of length {len(dls) if isinstance(dls, (list, tuple)) else '-'}"):
+                return
+            names = model.dataloader_names
+            if p["names"] is not None:
+                ctx.check(list(names) == list(p["names"]), f"dict_names|{tag}",
+                          f"dataloader_names={names} after {ph}_dataloader(), configured {p['names']}")
+            else:
+                ctx.check(names is not None and len(names) == len(orig), f"dict_names|{tag}",
+                          f"dataloader_names={names} for {len(orig)} datasets")
+            bss = conf[ph] if isinstance(conf[ph], list) else [conf[ph]] * len(orig)
+        else:
+            if not ctx.check(isinstance(dls, DataLoader), f"single_loader|{tag}",
+                             f"a single dataset: expected a DataLoader, got {type(dls).__name__}"):
+                return
+            dls, bss = [dls], [conf[ph]]
+        shuffled = ph == "train" and case["shuffle_train"]
+        for j, (dl, src, b) in enumerate(zip(dls, orig, bss)):
+            n = src["id"].shape[0]
+            batches = ctx.guard(list, dl, what=f"iterate|{ph}")
+            t = tag + (f"|set{j}" if p["form"] == "files" else "")
+            if not _batch_shape_ok(ctx, batches, n, b, t):
+                return
+            _verify_ids(ctx, batches, src, n, shuffled, t)
+            if ph != "train" and n >= 3:
+                stake = stake or n % b != 0
+            # a loaded batch is the caller's to modify; a later loader of the same phase must be unaffected
+            _mutate_in_place(batches)
+            ctx.event(f"{ph}:partial_last_batch={int(n % b != 0)}")
+        ctx.event(f"{ph}:form={p['form']}" + (f"x{len(orig)}" if p["form"] == "files" else ""))
+        if p["form"] == "files":
+            ctx.event(f"{ph}:bs={'list' if isinstance(conf[ph], list) else 'int'}|names={int(p['names'] is not None)}")
+    ctx.event(f"shuffle_train={int(case['shuffle_train'])}")
+    ctx.event(f"module={case['module']}")
+    ctx.event(f"dcls={case['dcls']}")
+    ctx.event(f"val_bs={'none' if case['val_bs'] is None else type(case['val_bs']).__name__}|"
+              f"test_bs={'none' if case['test_bs'] is None else type(case['test_bs']).__name__}")
+    if case["shuffle_train"] and stake:
+        ctx.nontriv()
+    ctx.sample({k: case[k] for k in ("phases", "bs", "val_bs", "test_bs", "shuffle_train", "dcls", "module", "calls")})
+
+
 # --------------------------------------------------------------------------- B. rollout baseline wrapping
+# mode history: recursive .train() / .eval() calls on the Lightning module ("model": what Trainer.fit does at the
+# start of the fit loop and around every validation loop; in direct mode = baseline + actor), on the baseline
+# module alone, or on the actor alone
+_MODE_OPS = ["model.train", "model.train", "model.eval", "baseline.train", "baseline.train", "baseline.eval",
+             "actor.train", "actor.eval"]
+_HIST = st.one_of(st.just([]), st.just(["model.train"]), st.lists(st.sampled_from(_MODE_OPS), min_size=0, max_size=3))
+
+
 @st.composite
 def cases_b(draw, tier="quick"):
     N = draw(st.integers(2, 12))
     nondiv = [b for b in range(2, N) if N % b]
     eval_bs = draw(st.sampled_from(nondiv)) if nondiv and draw(st.integers(0, 3)) else draw(st.integers(1, N + 1))
+    # second wrap: a new "epoch" set made of a drawn selection of the first set's instances (a permutation prefix
+    # or a free selection with repeats), so the solo oracle values are reused
+    sel = draw(st.one_of(st.permutations(list(range(N))).map(list),
+                         st.lists(st.integers(0, N - 1), min_size=1, max_size=N)))
+    sel = sel[:draw(st.integers(max(1, N // 2), N))]
     return dict(env=draw(st.sampled_from(["tsp", "cvrp"])), num_loc=draw(st.integers(4, 8)),
                 embed_dim=draw(st.sampled_from([16, 32])), spread=draw(st.sampled_from([1.0, 1.0, 1.25, 1.5])),
                 pseed=draw(st.integers(0, 2 ** 16)), dseed=draw(st.integers(0, 2 ** 16)),
@@ -466,19 +714,61 @@ def cases_b(draw, tier="quick"):
                 mode=draw(st.sampled_from(["direct", "direct", "module"])),
                 n_epochs=draw(st.integers(1, 3)), bl_alpha=draw(st.sampled_from([1.0, 0.05, 0.5])),
                 perturb=draw(st.sampled_from([0.0, 0.8, 1.3, 1.6])),
-                loader=draw(st.sampled_from(["torch", "module"])))
+                loader=draw(st.sampled_from(["torch", "module"])),
+                modedep=draw(st.sampled_from(["bn", "bn", "bn", "bn+do", "do"])),
+                bnstats=draw(st.sampled_from(["fresh", "trained"])),
+                actor0=draw(st.sampled_from(["train", "train", "eval"])),
+                hist1=draw(_HIST), hist2=draw(_HIST), hist3=draw(_HIST), sel=sel,
+                eval_bs2=draw(st.integers(1, len(sel) + 1)))
 
 
-def _policy(env_name, embed_dim, seed, spread):
+def _policy(env_name, embed_dim, seed, spread, modedep="bn", bnstats="fresh"):
+    """Tiny AttentionModelPolicy with mode-dependent layers: batch normalization (the constructor default) and/or a
+    dropout layer behind the initial embedding (the constructor offers no dropout option; `do` = instance
+    normalization + dropout, `bn+do` = both). `trained` gives the batch-norm layers non-trivial running statistics
+    (as after training / loading a checkpoint) so that eval mode is not the identity-like fresh state."""
+    import torch.nn as nn
     from rl4co.models import AttentionModelPolicy
 
     torch.manual_seed(seed)
     pol = AttentionModelPolicy(env_name=env_name, embed_dim=embed_dim, num_encoder_layers=1, num_heads=2,
-                               feedforward_hidden=2 * embed_dim)
+                               feedforward_hidden=2 * embed_dim,
+                               normalization="instance" if modedep == "do" else "batch")
     with torch.no_grad():
         for p in pol.parameters():
             p.mul_(spread)
+        if "do" in modedep:
+            pol.encoder.init_embedding = nn.Sequential(pol.encoder.init_embedding, nn.Dropout(0.3))
+        if bnstats == "trained":
+            g = torch.Generator().manual_seed(seed + 1)
+            for m in pol.modules():
+                if isinstance(m, nn.BatchNorm1d):
+                    m.running_mean.copy_(0.3 * torch.randn(m.running_mean.shape, generator=g))
+                    m.running_var.copy_(0.6 + 0.8 * torch.rand(m.running_var.shape, generator=g))
     return pol
+
+
+def _apply_modes(ops, model, bl, actor):
+    """Replay a drawn mode history. `model.*` = the Lightning module (module mode) or baseline and actor (direct)."""
+    for op in ops:
+        who, what = op.split(".")
+        if who == "model":
+            targets = [model] if model is not None else [bl, actor]
+        elif who == "baseline":
+            targets = [model.baseline if model is not None else bl]
+        else:
+            targets = [actor]
+        for t in targets:
+            t.train(what == "train")
+
+
+def _state_copy(module):
+    return {k: v.detach().clone() for k, v in module.state_dict().items()}
+
+
+def _state_equal(module, saved):
+    sd = module.state_dict()
+    return sd.keys() == saved.keys() and all(torch.equal(sd[k], saved[k]) for k in sd)
 
 
 def _solo(policy, env, row):
@@ -519,14 +809,20 @@ def _aliased(a, b):
     return a is b or any(p.data_ptr() in pa for p in b.parameters())
 
 
-def _compare_values(ctx, values, oracle, env, ref, n, tag, what):
-    """values[i] vs solo greedy reward of the oracle policy on instance i (argmax-stability rule)."""
+def _compare_values(ctx, values, oracle, env, ref, n, tag, what, cache=None, index=None, note=""):
+    """values[j] vs solo greedy reward of the oracle policy on instance index[j] (default j) of `ref`
+    (argmax-stability rule). `cache` (dict instance -> (reward, gap)) is filled / reused: the solo reward is a
+    function of the oracle policy and the instance only."""
     decisive = 0
     solos = []
-    for i in range(n):
-        r, gap = _solo(oracle, env, _row(ref, i))
+    cache = {} if cache is None else cache
+    for j in range(n):
+        i = j if index is None else index[j]
+        if i not in cache:
+            cache[i] = _solo(oracle, env, _row(ref, i))
+        r, gap = cache[i]
         solos.append(r)
-        v = float(values[i])
+        v = float(values[j])
         if abs(v - r) <= 1e-5 * (1 + abs(r)):
             decisive += gap > GAP
             continue
@@ -534,8 +830,8 @@ def _compare_values(ctx, values, oracle, env, ref, n, tag, what):
             ctx.event("dontcare_near_tie_mismatch")
             continue
         ctx.violation(f"{what}|{tag}",
-                      f"{what}: value attached to instance {i} is {v:.6f}, the baseline policy's solo greedy reward on "
-                      f"that instance is {r:.6f} (decisive, min top-2 gap {gap:.3g})",
+                      f"{what}: value attached to item {j} (instance {i}) is {v:.6f}, the baseline policy's solo "
+                      f"greedy reward (eval mode) on that instance is {r:.6f} (decisive, min top-2 gap {gap:.3g}){note}",
                       {"values": [float(x) for x in values], "solo_so_far": solos})
         return None
     return decisive, solos
@@ -551,12 +847,16 @@ def _perturb(policy, f):
 def execute_b(case, ctx):
     from rl4co.models import REINFORCE
     from rl4co.models.rl.reinforce.baselines import RolloutBaseline
+    from tensordict import TensorDict
     from torch.utils.data import DataLoader
 
     _quiet()
     N, M, eval_bs = case["N"], case["M"], case["eval_bs"]
+    modedep, bnstats = case.get("modedep", "bn"), case.get("bnstats", "fresh")
+    hist1, hist2, hist3 = case.get("hist1", []), case.get("hist2", []), case.get("hist3", [])
     env = _get_env(case["env"], case["num_loc"], case["dcls"])
-    policy = _policy(case["env"], case["embed_dim"], case["pseed"], case["spread"])
+    policy = _policy(case["env"], case["embed_dim"], case["pseed"], case["spread"], modedep, bnstats)
+    policy.train(case.get("actor0", "train") == "train")  # the mode the actor is handed over in
     snap = copy.deepcopy(policy).eval()
     tag = f"{case['env']}|{case['mode']}"
     oracle = snap
@@ -568,11 +868,12 @@ def execute_b(case, ctx):
         ctx.guard(bl.setup, policy, env, batch_size=eval_bs, device="cpu", dataset_size=M, what="RolloutBaseline.setup")
         inner = bl
 
-        def wrap(dataset):
-            return ctx.guard(bl.wrap_dataset, dataset, env, batch_size=eval_bs, device="cpu",
+        def wrap(dataset, bs=eval_bs):
+            return ctx.guard(bl.wrap_dataset, dataset, env, batch_size=bs, device="cpu",
                              what="RolloutBaseline.wrap_dataset")
         model = None
     else:
+        bl = None
         model = REINFORCE(env, policy, baseline="rollout", baseline_kwargs={"n_epochs": case["n_epochs"], "bl_alpha": case["bl_alpha"]},
                           batch_size=case["train_bs"], val_batch_size=eval_bs, train_data_size=N, val_data_size=M,
                           test_data_size=1, shuffle_train_dataloader=True)
@@ -580,7 +881,7 @@ def execute_b(case, ctx):
         ctx.guard(model.setup, what="REINFORCE.setup")
         inner = model.baseline.baseline
 
-        def wrap(dataset):
+        def wrap(dataset, bs=None):
             return ctx.guard(model.wrap_dataset, dataset, what="REINFORCE.wrap_dataset")
 
     ctx.check(not _aliased(inner.policy, policy), f"baseline_policy_aliased|{tag}",
@@ -593,7 +894,9 @@ def execute_b(case, ctx):
     if _compare_values(ctx, inner.bl_vals, snap, env, evref, M, tag, "bl_vals_mismatch") is None:
         return
 
-    # training moves on; the baseline must stay the snapshot
+    # training moves on (mode switches of the fit / validation loops, parameter updates); the baseline must stay
+    # the snapshot
+    _apply_modes(hist1, model, bl, policy)
     _perturb(policy, case["perturb"])
     if model is not None:
         cand = copy.deepcopy(policy).eval()
@@ -622,9 +925,22 @@ def execute_b(case, ctx):
                   "the baseline policy shares parameters with the training policy (not a snapshot)")
         _perturb(policy, case["perturb"])
         ctx.event(f"alpha={model.baseline.alpha:.2f}")
+    _apply_modes(hist2, model, bl, policy)
+
+    def wrap_checked(dataset, which, bs):
+        """wrap_dataset under the current mode state; the actor (not an argument of wrapping) must be untouched."""
+        copy_mode = "train" if inner.policy.training else "eval"
+        ctx.event(f"frozen_copy_mode_at_{which}={copy_mode}")
+        ctx.event(f"baseline_module_mode_at_{which}={'train' if inner.training else 'eval'}")
+        actor_before = _state_copy(policy)
+        out = wrap(dataset, bs)
+        ctx.check(_state_equal(policy, actor_before), f"actor_changed_by_wrap|{tag}",
+                  f"{which}: wrap_dataset changed parameters / buffers of the training policy (actor)")
+        return out, (f" [frozen copy was in {copy_mode} mode when wrap_dataset was called; mode history after setup: "
+                     f"{hist1 + hist2 + (hist3 if which == 'wrap2' else [])}]")
 
     ref, dataset = _gen_and_dataset(ctx, env, N, "train", case["dseed"] + 1)
-    wrapped = wrap(dataset)
+    wrapped, note = wrap_checked(dataset, "wrap1", eval_bs)
     ctx.check(len(wrapped) == N, f"len|{tag}", f"wrapped dataset has length {len(wrapped)} for {N} instances")
     seq = ctx.guard(list, DataLoader(wrapped, batch_size=N + 1, collate_fn=wrapped.collate_fn), what="iterate")
     if not _batch_shape_ok(ctx, seq, N, N + 1, "wrapped_seq|" + tag):
@@ -644,14 +960,19 @@ def execute_b(case, ctx):
     if _verify_content(ctx, seq, ref, N, False, "wrapped_seq|" + tag, extra=extra) is None:
         return
     decisive = 0
+    cache = {}
     if extra is not None:
-        res = _compare_values(ctx, extra, oracle, env, ref, N, tag, "rollout_value_mismatch")
+        res = _compare_values(ctx, extra, oracle, env, ref, N, tag, "rollout_value_mismatch", cache=cache, note=note)
         if res is None:
             return
         decisive, solos = res
         ctx.event("decisive_instances", decisive)
         ctx.event("instances", N)
         ctx.event("distinct_rewards" if len({round(s, 5) for s in solos}) > 1 else "constant_rewards")
+    # evaluating the frozen copy must not modify it (a training-mode forward moves the batch-norm statistics)
+    if not ctx.check(_same_params(inner.policy, oracle), f"baseline_policy_changed_by_wrap|{tag}",
+                     "wrap1: parameters / buffers of the baseline policy differ from the snapshot after wrap_dataset" + note):
+        return
 
     # the value travels with its instance through shuffling and batching
     torch.manual_seed(case["dseed"] + 2)
@@ -664,14 +985,46 @@ def execute_b(case, ctx):
     if _batch_shape_ok(ctx, batches, N, case["train_bs"], "wrapped_shuffled|" + tag):
         _verify_content(ctx, batches, ref, N, True, "wrapped_shuffled|" + tag, extra=extra)
 
+    # next epoch: more mode switches, then a new set (a drawn selection of the same instances, so the value of item
+    # j is the solo reward of instance sel[j] already computed) is wrapped by the same baseline
+    sel = case.get("sel")
+    if sel and extra is not None:
+        _apply_modes(hist3, model, bl, policy)
+        n2 = len(sel)
+        ref2 = {k: v[sel].clone() for k, v in ref.items()}
+        ds2 = env.dataset_cls(TensorDict({k: v.clone() for k, v in ref2.items()}, batch_size=[n2]))
+        wrapped2, note2 = wrap_checked(ds2, "wrap2", case.get("eval_bs2", eval_bs))
+        seq2 = ctx.guard(list, DataLoader(wrapped2, batch_size=n2 + 1, collate_fn=wrapped2.collate_fn), what="iterate")
+        if not _batch_shape_ok(ctx, seq2, n2, n2 + 1, "wrapped2_seq|" + tag):
+            return
+        if not ctx.check("extra" in seq2[0].keys(), f"no_extra|{tag}", "second wrap_dataset attached no 'extra' key"):
+            return
+        extra2 = seq2[0]["extra"].clone()
+        if not ctx.check(extra2.dtype == torch.float32 and tuple(extra2.shape) == (n2,), f"extra_shape|{tag}",
+                         f"extra came back as {extra2.dtype} {tuple(extra2.shape)}, expected float32 ({n2},)"):
+            return
+        if _verify_content(ctx, seq2, ref2, n2, False, "wrapped2_seq|" + tag, extra=extra2) is None:
+            return
+        if _compare_values(ctx, extra2, oracle, env, ref, n2, tag, "rollout_value_mismatch", cache=cache, index=sel,
+                           note=note2) is None:
+            return
+        if not ctx.check(_same_params(inner.policy, oracle), f"baseline_policy_changed_by_wrap|{tag}",
+                         "wrap2: parameters / buffers of the baseline policy differ from the snapshot after "
+                         "wrap_dataset" + note2):
+            return
+        ctx.event("second_wrap")
+        ctx.event(f"second_wrap_repeats={int(len(set(sel)) < n2)}")
+
     ctx.event(f"mode={case['mode']}")
     ctx.event(f"env={case['env']}")
     ctx.event(f"type={type(wrapped).__name__}")
     ctx.event(f"eval_bs_divides_N={int(N % eval_bs == 0)}")
     ctx.event(f"perturbed={int(bool(case['perturb']))}")
+    ctx.event(f"modedep={modedep}|bnstats={bnstats}")
     if N % eval_bs != 0 and extra is not None and decisive >= 1:
         ctx.nontriv()
-    ctx.sample({k: case[k] for k in ("env", "num_loc", "N", "M", "eval_bs", "train_bs", "mode", "dcls", "perturb")})
+    ctx.sample({k: case[k] for k in ("env", "num_loc", "N", "M", "eval_bs", "train_bs", "mode", "dcls", "perturb")}
+               | {"modedep": modedep, "hist": [hist1, hist2, hist3]})
 
 
 # --------------------------------------------------------------------------- observations (never violations)
@@ -711,6 +1064,8 @@ SUBS = [
         budget={"quick": 6400, "thorough": 64000}, shards=16),
     Sub("env_dataset", execute_env, strategy=lambda tier: cases_env(tier),
         budget={"quick": 1280, "thorough": 12800}, shards=16),
+    Sub("module_phases", execute_ph, strategy=lambda tier: cases_ph(tier),
+        budget={"quick": 512, "thorough": 5120}, shards=16),
     Sub("rollout_wrap", execute_b, strategy=lambda tier: cases_b(tier),
         budget={"quick": 256, "thorough": 2560}, shards=16, weight=3.0),
     Sub("observations", execute_obs, enumerate=_observations, shards=1, weight=0.1),
